@@ -6,13 +6,13 @@ constructors. -/
 namespace Dhcp.V6
 open Dhcp
 
-theorem fin_ok {α : Type} {l : Lexer} {a b : α} (h : fin l a = .ok b) : a = b := by
+theorem fin_ok_eq {α : Type} {l : Lexer} {a b : α} (h : fin l a = .ok b) : a = b := by
   unfold fin at h
   split at h
   · cases h
   · cases h; rfl
 
-theorem Res.map_ok {α β : Type} {f : α → β} {r : Res α} {b : β} (h : r.map f = .ok b) :
+theorem Res.map_eq_ok {α β : Type} {f : α → β} {r : Res α} {b : β} (h : r.map f = .ok b) :
     ∃ a, r = .ok a ∧ f a = b := by
   cases r with
   | ok a => exact ⟨a, rfl, by simpa [Res.map, Res.bind] using h⟩
@@ -22,7 +22,7 @@ theorem Res.map_ok {α β : Type} {f : α → β} {r : Res α} {b : β} (h : r.m
 /-- closes one branch of `decSimple`: split what is left and read the constructor off -/
 local macro "decSimple_finish" h:ident : tactic =>
   `(tactic| (repeat' split at $h:ident) <;> first
-    | (have hf := fin_ok $h; subst hf; rfl)
+    | (have hf := fin_ok_eq $h; subst hf; rfl)
     | (cases $h:ident; rfl)
     | cases $h:ident)
 
@@ -111,7 +111,7 @@ theorem decIA_ok {mk : Bytes → Dur → Dur → List Opt6 → Opt6} {f : Bytes 
   unfold decIA at h
   dsimp only at h
   split at h
-  · exact ⟨_, _, _, _, (fin_ok h).symm⟩
+  · exact ⟨_, _, _, _, (fin_ok_eq h).symm⟩
   · cases h
   · cases h
 
@@ -124,12 +124,12 @@ theorem parseOpt_typed : ∀ (fuel code : Nat) (data : Bytes) (o : Opt6),
     unfold parseOpt at h
     by_cases h1 : code = 1
     · rw [if_pos h1] at h
-      obtain ⟨d, _, rfl⟩ := Res.map_ok h
+      obtain ⟨d, _, rfl⟩ := Res.map_eq_ok h
       exact ⟨fun hc => by simp [Opt6.code, ocIANA] at hc, fun _ => ⟨d, rfl⟩⟩
     rw [if_neg h1] at h
     by_cases h2 : code = 2
     · rw [if_pos h2] at h
-      obtain ⟨d, _, rfl⟩ := Res.map_ok h
+      obtain ⟨d, _, rfl⟩ := Res.map_eq_ok h
       exact ⟨fun hc => by simp [Opt6.code, ocIANA] at hc, fun hc => by simp [Opt6.code, ocClientID] at hc⟩
     rw [if_neg h2] at h
     by_cases h3 : code = 3
@@ -142,7 +142,7 @@ theorem parseOpt_typed : ∀ (fuel code : Nat) (data : Bytes) (o : Opt6),
       unfold decIATA at h
       dsimp only at h
       split at h
-      · have := fin_ok h; subst this
+      · have := fin_ok_eq h; subst this
         exact ⟨fun hc => by simp [Opt6.code, ocIANA] at hc, fun hc => by simp [Opt6.code, ocClientID] at hc⟩
       · cases h
       · cases h
@@ -152,14 +152,14 @@ theorem parseOpt_typed : ∀ (fuel code : Nat) (data : Bytes) (o : Opt6),
       unfold decIAAddr at h
       dsimp only at h
       split at h
-      · have := fin_ok h; subst this
+      · have := fin_ok_eq h; subst this
         exact ⟨fun hc => by simp [Opt6.code, ocIANA] at hc, fun hc => by simp [Opt6.code, ocClientID] at hc⟩
       · cases h
       · cases h
     rw [if_neg h5] at h
     by_cases h9 : code = 9
     · rw [if_pos h9] at h
-      obtain ⟨d, _, rfl⟩ := Res.map_ok h
+      obtain ⟨d, _, rfl⟩ := Res.map_eq_ok h
       exact ⟨fun hc => by simp [Opt6.code, ocIANA] at hc, fun hc => by simp [Opt6.code, ocClientID] at hc⟩
     rw [if_neg h9] at h
     by_cases h25 : code = 25
@@ -174,14 +174,14 @@ theorem parseOpt_typed : ∀ (fuel code : Nat) (data : Bytes) (o : Opt6),
       split at h
       · cases h
       · split at h
-        · have := fin_ok h; subst this
+        · have := fin_ok_eq h; subst this
           exact ⟨fun hc => by simp [Opt6.code, ocIANA] at hc, fun hc => by simp [Opt6.code, ocClientID] at hc⟩
         · cases h
         · cases h
     rw [if_neg h26] at h
     by_cases h97 : code = 97
     · rw [if_pos h97] at h
-      obtain ⟨d, _, rfl⟩ := Res.map_ok h
+      obtain ⟨d, _, rfl⟩ := Res.map_eq_ok h
       exact ⟨fun hc => by simp [Opt6.code, ocIANA] at hc, fun hc => by simp [Opt6.code, ocClientID] at hc⟩
     rw [if_neg h97] at h
     have hc := decSimple_code h
@@ -236,11 +236,11 @@ theorem dec6_typed {b : Bytes} {m : Msg6} (h : dec6 b = .ok m) : ∀ o ∈ m.opt
     · split at h
       · split at h
         · cases h
-        · obtain ⟨os, hos, rfl⟩ := Res.map_ok h
+        · obtain ⟨os, hos, rfl⟩ := Res.map_eq_ok h
           exact decOptsF_typed _ _ _ hos
       · split at h
         · cases h
-        · obtain ⟨os, hos, rfl⟩ := Res.map_ok h
+        · obtain ⟨os, hos, rfl⟩ := Res.map_eq_ok h
           exact decOptsF_typed _ _ _ hos
 
 theorem IANATyped_of_typed {os : List Opt6} (h : ∀ o ∈ os, o.Typed) : IANATyped os :=
